@@ -47,6 +47,8 @@ def run(idx: ProgramIndex, rep: Report, tier: str):
     prior_alignment(idx, rep)
     right_alignment(idx, rep)
     no_absolute_rank(idx, rep)
+    two_d_primitives_guarded(idx, rep)
+    own_leading_shape(idx, rep)
 
 
 def _families(idx: ProgramIndex) -> List[ClassInfo]:
@@ -515,3 +517,119 @@ def no_absolute_rank(idx: ProgramIndex, rep: Report):
     if sites == 0:
         rep.add("C08-8", "package[no absolute rank tests]", "gpytorch/", True, "%d rank comparisons, none against a literal >= 3" % n, {})
     rep.floor("C08-8", "rank comparisons", n, 20)
+
+
+# ---- C08-9 ---------------------------------------------------------------------------------------------------------
+STRICTLY_2D = {"torch.addmm": 3, "torch.mm": 2, "torch.mv": 2, "torch.addmv": 3}
+
+
+def two_d_primitives_guarded(idx: ProgramIndex, rep: Report):
+    """torch.addmm / mm / mv accept 2-d (1-d) tensors only.  In batch-capable code such a fast path is legitimate behind a rank test - of
+    *every* tensor operand: any of them may be the one that carries a batch dimension (the test/test covariance can be un-batched while
+    the solve against a batched mean or noise is not).  Sibling evidence: PolynomialKernel guards all three operands."""
+    rep.rule("C08-9", "strictly 2-d primitives (torch.addmm / mm / mv / addmv) sit behind a rank-2 test of every tensor operand")
+    n = 0
+    for fi in sorted(idx.all_functions(), key=lambda f: (f.module.name, f.qualname)):
+        for c in calls_in(fi.node):
+            fn = chain(c.func) or ""
+            if fn not in STRICTLY_2D:
+                continue
+            n += 1
+            ops = c.args[:STRICTLY_2D[fn]]
+            bases = []
+            for o in ops:
+                b = o
+                while isinstance(b, (ast.Call, ast.Attribute, ast.Subscript)):
+                    b = b.func.value if isinstance(b, ast.Call) and isinstance(b.func, ast.Attribute) else (b.value if not isinstance(b, ast.Call) else (b.args[0] if b.args else b.func))
+                bases.append(b.id if isinstance(b, ast.Name) else src(o))
+            guards = _enclosing_tests_c08(fi.node, c)
+            gtxt = " and ".join(src(g) for g in guards)
+            missing = []
+            for b in bases:
+                ok = any(("%s.dim() == 2" % b) in gtxt or ("%s.ndimension() == 2" % b) in gtxt or ("len(%s.shape) == 2" % b) in gtxt or ("%s.ndim == 2" % b) in gtxt for _ in [0])
+                if not ok:
+                    missing.append(b)
+            rep.add("C08-9", "%s:%s[%s]" % (fi.module.name, fi.qualname, fn), "%s:%d" % (fi.module.relpath, c.lineno), not missing,
+                    "every operand (%s) is tested to be 2-d" % ", ".join(bases) if not missing else
+                    "`%s(...)` is reached after a rank test of %s only; %s may carry batch dimensions (a batched mean or noise with an un-batched kernel): the call raises 'mat2 must be a matrix'" % (
+                        fn, ", ".join(b for b in bases if b not in missing) or "no operand", ", ".join(missing)), {"guards": gtxt[:200]})
+    rep.floor("C08-9", "strictly 2-d primitives", n, 2)
+
+
+def _enclosing_tests_c08(fn: ast.AST, target: ast.AST):
+    out = []
+
+    def rec(stmts, acc) -> bool:
+        for st in stmts:
+            if any(x is target for x in ast.walk(st)):
+                if isinstance(st, ast.If):
+                    if any(x is target for b in st.body for x in ast.walk(b)):
+                        return rec(st.body, acc + [st.test])
+                    if any(x is target for b in st.orelse for x in ast.walk(b)):
+                        return rec(st.orelse, acc)
+                for blk in ("body", "orelse", "finalbody"):
+                    v = getattr(st, blk, None)
+                    if not isinstance(st, ast.If) and isinstance(v, list) and any(x is target for b in v for x in ast.walk(b)):
+                        return rec(v, acc)
+                out.extend(acc)
+                return True
+        return False
+    rec(fn.body, [])
+    return out
+
+
+# ---- C08-10 --------------------------------------------------------------------------------------------------------
+def own_leading_shape(idx: ProgramIndex, rep: Report):
+    """`v.view(*B, ...)` keeps the values and re-labels the dimensions; it is the identity on the leading dimensions exactly when B is the
+    leading shape of v itself.  In the prediction / fantasy code the batch shape of a value is the *broadcast* of the batch shapes of
+    everything it was computed from (inputs, hyper-parameters, targets, noise); taking B from one other tensor (`train_inputs[0].shape[:-2]`,
+    the joint prior's batch_shape) is right only while that tensor happens to carry the full batch - shared inputs under batched
+    hyper-parameters, or a batch that only the targets / the noise carry, raise 'shape is invalid for input of size'.  Judged in the
+    modules that assemble predictions (models/, mlls/): B must be a slice of v's own shape, or come from broadcast_shapes."""
+    rep.rule("C08-10", "in prediction / objective code a value is re-shaped with its own leading shape (or a broadcast shape), never with the batch shape of some other tensor")
+    from ..symbolic import inline, walk_paths
+    n = 0
+    for fi in sorted(idx.all_functions(), key=lambda f: (f.module.name, f.qualname)):
+        if not (fi.module.name.startswith(idx.package + ".models.exact") or fi.module.name.startswith(idx.package + ".mlls")):
+            continue
+        if not any(isinstance(c.func, ast.Attribute) and c.func.attr in ("view", "reshape") and any(isinstance(a, ast.Starred) for a in c.args) for c in calls_in(fi.node)):
+            continue
+        seen = set()
+        for path, seq in walk_paths(fi, limit=400):
+            for st, env in seq:
+                if not isinstance(st, ast.stmt):
+                    continue
+                for c in (x for x in ast.walk(st) if isinstance(x, ast.Call) and isinstance(x.func, ast.Attribute) and x.func.attr in ("view", "reshape")):
+                    stars = [a for a in c.args if isinstance(a, ast.Starred)]
+                    if not stars or (c.lineno, c.col_offset) in seen:
+                        continue
+                    first = stars[0]
+                    if first is not c.args[0]:
+                        continue
+                    seen.add((c.lineno, c.col_offset))
+                    n += 1
+                    recv_src = " ".join(src(c.func.value).split())
+                    b = inline(first.value, env)
+                    btxt = " ".join(src(b).split())
+                    own = isinstance(first.value, ast.Subscript) and " ".join(src(first.value.value).split()) == recv_src + ".shape"
+                    own = own or (isinstance(b, ast.Subscript) and isinstance(b.value, ast.Attribute) and b.value.attr == "shape" and " ".join(src(inline(c.func.value, env)).split()).startswith(" ".join(src(b.value.value).split())))
+                    bc = "broadcast_shapes" in btxt
+                    # a shape assembled from the value's own dims (sample_shape + own) is out of scope: only single foreign sources are judged
+                    single = (isinstance(b, ast.Subscript) and isinstance(b.value, ast.Attribute) and b.value.attr == "shape") or (isinstance(b, ast.Attribute) and b.attr in ("shape", "batch_shape"))
+                    foreign = (not own) and (not bc) and single
+                    # instance key: function + where the leading shape comes from (sites of one function that share the source are one
+                    # finding; parameter names are stable under the renaming of locals)
+                    import copy as _copy
+                    anon = _copy.deepcopy(b)
+                    params_ = set(fi.params)
+                    for x_ in ast.walk(anon):
+                        if isinstance(x_, ast.Name) and x_.id not in params_ and x_.id not in ("self", "torch"):
+                            x_.id = "_"
+                    inst = "%s:%s[leading shape from %s]" % (fi.module.name, fi.qualname, " ".join(src(anon).split())[:50] if foreign else "own/broadcast")
+                    if any(o.rule == "C08-10" and o.instance == inst for o in rep.obligations):
+                        continue
+                    rep.add("C08-10", inst, "%s:%d" % (fi.module.relpath, c.lineno), not foreign,
+                            "re-shaped with its own leading shape / a broadcast shape" if not foreign else
+                            "`%s` takes its leading dims from `%s`, another tensor's batch shape: when the batch is carried by an operand that tensor does not see (shared inputs under batched hyper-parameters; a batch that only targets or noise carry) the call raises 'shape is invalid for input of size'" % (
+                                " ".join(src(c).split())[:60], btxt[:50]), {})
+    rep.floor("C08-10", "view / reshape calls with a starred leading shape", n, 5)
